@@ -6,6 +6,10 @@ ids = [json.loads(l)['id'] for l in open(f'{V}/properties.jsonl')]
 hook_commits = ["d6c2605", "7556b51"]
 
 CLAIMED = {
+ "C07": dict(engine="E2 corpus (TS-only)", technique="proptest-driven generation of generic definitions (lifetimes, const parameters, concrete(..), defaults over earlier parameters) x 2-4 instantiations; oracle = string equality across instantiations + swc parameter-list/scope analysis + witness search between expanded and concrete declaration",
+   text="Generated generic types are compiled and every definition is instantiated 2-4 times: decl() must be the same string for all instantiations, generic over exactly the non-concretised type parameters in order with the expected defaults, mention no name it does not bind or that is not a type of the module; name() must be identifier<argument names>; the declaration expanded at the arguments must be indistinguishable (no JSON witness) from decl_concrete().",
+   note="Const arguments are fixed at 2. Serde is not derived in this corpus; value-level agreement is C01/C14's business.",
+   ref="DESIGN.md §4 C07"),
  "C14": dict(engine="E2 corpus", technique="proptest-driven generation with metamorphic presentation twins (by name / inline / flatten / as); oracle = witness search for a distinguishing JSON value + serde values on every twin",
    text="For each generated module one field of a user type is presented by name, inlined, flattened and via `as` on a structurally equal twin type (also under `#[ts(optional)]`); every twin is compiled. Serde values must inhabit every twin; by-name and inline may not be distinguishable by any enumerated/sampled JSON witness; the `as` twin's declaration must be textually the by-name one; by-name witnesses with the field merged into the parent must inhabit the flattened twin; decl_concrete() must equal `type N = inline()` and inline() must be indistinguishable from the declaration instantiated at the arguments.",
    note="Equivalence is decided by witness search only (no witness = counted as inconclusive equivalence). One known finding (optional_fields on a bare parameter instantiated with Option) is listed and excluded by construction.",
@@ -58,9 +62,9 @@ CLAIMED = {
    text="Generated valid items are rendered in spelling variants (all-serde, all-ts, one list per key, both spellings with equal/different values, one unsupported serde key inserted at every attribute position and list index) and expanded in-process under three feature builds; the expansions of related variants must be equal as token multisets, and with serde-compat off serde attributes must have no effect.",
    note="Token order is deliberately forgotten (hash-order of dependency statements). The relation is on expansions, not compiled output.",
    ref="DESIGN.md §4 C10"),
- "C16": dict(engine="E1 macro-inproc", technique="proptest generation from an attribute grammar wider than the supported fragment; oracle = catch_unwind + documented-rejection table",
+ "C16": dict(engine="E1 macro-inproc + E2 compile verdict", technique="proptest generation from an attribute grammar wider than the supported fragment; oracle = catch_unwind + documented-rejection table + rustc verdict on accepted items",
    text="Items with any subset of ts/serde keys (valid, malformed, unknown, duplicated, misplaced) at container/variant/field level over all shapes, generics forms and unusual identifiers are expanded in-process under catch_unwind, with and without serde-compat: no panic; every documented incompatibility present in the ts-spelled (or cleanly serde-spelled) attributes is rejected; a lone unknown ts key is named.",
-   note="The rejection table is Appendix D of DESIGN.md (read off the TS trait docs and assert_validity); field/variant rejections are only expected where the derive processes that field/variant. The 'accepted => compiles' half is checked on compiled corpora (C01..), not here.",
+   note="The rejection table is Appendix D of DESIGN.md (read off the TS trait docs and assert_validity); field/variant rejections are only expected where the derive processes that field/variant. Compiled half: TS-only generated modules (rich generics, optional, flatten, inline, unusual identifiers) are built against /repo; a module rustc rejects although the in-process derive accepts every item (or with an error code about the TS trait) is a violation, and `#[ts(optional)]` on a non-Option field must fail to compile.",
    ref="DESIGN.md §4 C16"),
  "C08": dict(engine="E4 purefn", technique="exhaustive small-scope enumeration + proptest generation of path pairs against a lexical reference resolver (differential oracle)",
    text="Every pair (importing file, dependency file) over the stated component alphabet is enumerated exhaustively up to directory depth 2 (quick) / 3 (thorough) under 5 base spellings, with and without import-esm, plus proptest-generated odd/long components; each specifier produced by the real import_path (through the cfg(ts_rs_verif) hook) is resolved by an independent lexical resolver and must denote the dependency's file. Exploration level: exhaustive within the bound, sampled beyond it.",
